@@ -65,50 +65,92 @@ func runC04(c *Ctx) {
 	{
 		info := wr.Pkg.TypesInfo
 		facts := eng.Analyze(wr)
-		layer, flags := wr.localVar("layer"), wr.localVar("flags")
+		// the selection: the local first loaded with getLayerInfo(); the packet's
+		// flags: the local of type codecs.Flags
+		var layer, flags types.Object
+		isLayerVar := func(o types.Object) bool {
+			if o == nil {
+				return false
+			}
+			nt, ok := o.Type().(*types.Named)
+			return ok && nt.Obj().Name() == "layerInfo" && nt.Obj().Pkg() == wr.Pkg.Types
+		}
+		ast.Inspect(wr.Body(), func(n ast.Node) bool {
+			as, ok := n.(*ast.AssignStmt)
+			if !ok {
+				return true
+			}
+			for i, l := range as.Lhs {
+				id, isId := l.(*ast.Ident)
+				if !isId || len(as.Rhs) != len(as.Lhs) {
+					continue
+				}
+				o := info.ObjectOf(id)
+				if call, isCall := unparen(as.Rhs[i]).(*ast.CallExpr); isCall && layer == nil && isLayerVar(o) && fnIs(calleeOf(&CallSite{Call: call, In: wr}), "rtpconn", "rtpDownTrack", "getLayerInfo") {
+					layer = o
+				}
+			}
+			if len(as.Lhs) >= 1 && flags == nil {
+				if id, isId := as.Lhs[0].(*ast.Ident); isId {
+					if o := info.ObjectOf(id); o != nil {
+						if nt, isN := o.Type().(*types.Named); isN && nt.Obj().Name() == "Flags" && nt.Obj().Pkg() != nil && nt.Obj().Pkg().Name() == "codecs" {
+							flags = o
+						}
+					}
+				}
+			}
+			return true
+		})
 		if layer == nil || flags == nil {
-			c.Unknown("R4.1", "locals", wr.Pos(), "Write no longer has the locals layer / flags")
+			c.Unknown("R4.1", "locals", wr.Pos(), "Write no longer keeps the layer selection and the packet flags in locals")
 			return
 		}
-		L := func(n string) *Term { return TField(TVar(layer), lf(n)) }
+		cur := layer // the selection variable a store is about (a copy of it inside inlined code)
+		L := func(n string) *Term { return TField(TVar(cur), lf(n)) }
 		F := func(n string) *Term { return TField(TVar(flags), ff(n)) }
 		T := func(t *Term) *Fact { return mkFact(true, "true", t, nil) }
-		start, kf := T(F("Start")), T(F("Keyframe"))
-		sidAlts := map[string][]guardAlt{
-			"layer.wantedSid": {{"wanted layer at the first packet of a keyframe", []*Fact{start, kf}}},
-			"flags.Sid":       {{"new top layer while at the top, not limited", []*Fact{mkFact(true, "lt", L("maxSid"), F("Sid")), mkFact(true, "eq", L("sid"), L("maxSid")), mkFact(false, "true", L("limitSid"), nil)}}},
-		}
-		tidAlts := map[string][]guardAlt{
-			"layer.wantedTid": {
-				{"wanted layer at the start of a keyframe", []*Fact{start, kf}},
-				{"lower wanted layer at the start of a frame", []*Fact{start, mkFact(true, "lt", L("wantedTid"), L("tid"))}},
-			},
-			"flags.Tid": {
-				{"up-switch point not above the wanted layer, at a frame start", []*Fact{start, T(F("TidUpSync")), mkFact(false, "lt", L("wantedTid"), F("Tid"))}},
-				{"new top layer while at the top", []*Fact{mkFact(true, "lt", L("maxTid"), F("Tid")), mkFact(true, "eq", L("tid"), L("maxTid"))}},
-			},
-		}
-		maxAlts := func(max, fl string) map[string][]guardAlt {
-			return map[string][]guardAlt{"flags." + fl: {{"a layer higher than any seen so far", []*Fact{mkFact(true, "lt", L(max), F(fl))}}}}
-		}
-		wantedAlts := func(cur, max, fl string, lim bool) map[string][]guardAlt {
-			fs := []*Fact{mkFact(true, "lt", L(max), F(fl)), mkFact(true, "eq", L(cur), L(max))}
-			if lim {
-				fs = append(fs, mkFact(false, "true", L("limitSid"), nil))
-			}
-			return map[string][]guardAlt{"flags." + fl: {{"new top layer while at the top", fs}}}
-		}
-		tables := map[string]struct {
+		mkTables := func() map[string]struct {
 			rule string
 			alts map[string][]guardAlt
 			what string
-		}{
-			"sid":       {"R4.1", sidAlts, "the spatial layer changes at a point where the receiver cannot decode the new layer"},
-			"tid":       {"R4.2", tidAlts, "the temporal layer changes at a point the codec does not allow"},
-			"maxSid":    {"R4.3", maxAlts("maxSid", "Sid"), "the highest spatial layer seen is set to something that was not seen or decreases"},
-			"maxTid":    {"R4.3", maxAlts("maxTid", "Tid"), "the highest temporal layer seen is set to something that was not seen or decreases"},
-			"wantedSid": {"R4.3", wantedAlts("sid", "maxSid", "Sid", true), "the wanted spatial layer is changed by the forwarding path outside the follow-the-top exception"},
-			"wantedTid": {"R4.3", wantedAlts("tid", "maxTid", "Tid", false), "the wanted temporal layer is changed by the forwarding path outside the follow-the-top exception"},
+		} {
+			start, kf := T(F("Start")), T(F("Keyframe"))
+			sidAlts := map[string][]guardAlt{
+				"layer.wantedSid": {{"wanted layer at the first packet of a keyframe", []*Fact{start, kf}}},
+				"flags.Sid":       {{"new top layer while at the top, not limited", []*Fact{mkFact(true, "lt", L("maxSid"), F("Sid")), mkFact(true, "eq", L("sid"), L("maxSid")), mkFact(false, "true", L("limitSid"), nil)}}},
+			}
+			tidAlts := map[string][]guardAlt{
+				"layer.wantedTid": {
+					{"wanted layer at the start of a keyframe", []*Fact{start, kf}},
+					{"lower wanted layer at the start of a frame", []*Fact{start, mkFact(true, "lt", L("wantedTid"), L("tid"))}},
+				},
+				"flags.Tid": {
+					{"up-switch point not above the wanted layer, at a frame start", []*Fact{start, T(F("TidUpSync")), mkFact(false, "lt", L("wantedTid"), F("Tid"))}},
+					{"new top layer while at the top", []*Fact{mkFact(true, "lt", L("maxTid"), F("Tid")), mkFact(true, "eq", L("tid"), L("maxTid"))}},
+				},
+			}
+			maxAlts := func(max, fl string) map[string][]guardAlt {
+				return map[string][]guardAlt{"flags." + fl: {{"a layer higher than any seen so far", []*Fact{mkFact(true, "lt", L(max), F(fl))}}}}
+			}
+			wantedAlts := func(cur, max, fl string, lim bool) map[string][]guardAlt {
+				fs := []*Fact{mkFact(true, "lt", L(max), F(fl)), mkFact(true, "eq", L(cur), L(max))}
+				if lim {
+					fs = append(fs, mkFact(false, "true", L("limitSid"), nil))
+				}
+				return map[string][]guardAlt{"flags." + fl: {{"new top layer while at the top", fs}}}
+			}
+			return map[string]struct {
+				rule string
+				alts map[string][]guardAlt
+				what string
+			}{
+				"sid":       {"R4.1", sidAlts, "the spatial layer changes at a point where the receiver cannot decode the new layer"},
+				"tid":       {"R4.2", tidAlts, "the temporal layer changes at a point the codec does not allow"},
+				"maxSid":    {"R4.3", maxAlts("maxSid", "Sid"), "the highest spatial layer seen is set to something that was not seen or decreases"},
+				"maxTid":    {"R4.3", maxAlts("maxTid", "Tid"), "the highest temporal layer seen is set to something that was not seen or decreases"},
+				"wantedSid": {"R4.3", wantedAlts("sid", "maxSid", "Sid", true), "the wanted spatial layer is changed by the forwarding path outside the follow-the-top exception"},
+				"wantedTid": {"R4.3", wantedAlts("tid", "maxTid", "Tid", false), "the wanted temporal layer is changed by the forwarding path outside the follow-the-top exception"},
+			}
 		}
 		k := newKeyer()
 		counts, kinds := map[string]int{}, map[string]int{}
@@ -126,18 +168,34 @@ func runC04(c *Ctx) {
 				return true
 			}
 			id, ok := unparen(sel.X).(*ast.Ident)
-			if !ok || info.Uses[id] != layer {
+			if !ok || !isLayerVar(info.Uses[id]) {
 				return true
 			}
+			// the tables are about this variable (the selection itself, or the private
+			// copy a helper worked on before it was handed back)
+			cur = info.Uses[id]
+			tables := mkTables()
+			cur = layer
 			fname := s.Obj().Name()
 			tb, ok := tables[fname]
-			key := k.key("Write: layer."+fname, "=", types.ExprString(as.Rhs[0]))
+			// the value stored, named by role: a field of the same selection, or of the flags
+			rhs := types.ExprString(as.Rhs[0])
+			if rsel, isSel := unparen(as.Rhs[0]).(*ast.SelectorExpr); isSel {
+				if rid, isId := unparen(rsel.X).(*ast.Ident); isId {
+					switch {
+					case info.Uses[rid] == info.Uses[id]:
+						rhs = "layer." + rsel.Sel.Name
+					case info.Uses[rid] == flags:
+						rhs = "flags." + rsel.Sel.Name
+					}
+				}
+			}
+			key := k.key("Write: layer."+fname, "=", rhs)
 			if !ok {
 				c.Bad("R4.3", key, as.Pos(), "Write stores a field of the layer selection that it has no business changing")
 				return true
 			}
 			counts[fname]++
-			rhs := types.ExprString(as.Rhs[0])
 			kinds[fname+"="+rhs]++
 			alts := tb.alts[rhs]
 			var altFacts [][]*Fact
